@@ -226,18 +226,16 @@ def r2_resolution_before_use(ctx) -> None:
     r, prog = ctx.r, ctx.prog
     r.rule("C09.R2", "Backend.convert resolves references before the first conversion; collection lookups fail as SigmaRuleNotFoundError; referenced results are read only through get_conversion_result(), which raises a Sigma error when absent; every reference is resolved unconditionally")
     cv = prog.func("sigma.conversion.base.Backend.convert")
-    cfg = cfg_of(cv)
-    res = [c for c in walk_no_nested(cv.node) if isinstance(c, ast.Call) and call_name(c) == "rule_collection.resolve_rule_references"]
-    convs = [c for c in walk_no_nested(cv.node) if isinstance(c, ast.Call) and call_name(c) in ("self.convert_rule", "self.convert_correlation_rule")]
-    if not res:
+    # Backend.convert interpreted (sa.tabulate, Proxy) on a stand-in collection: the order of the recorded calls
+    from .standins import run_backend_convert
+    tr2 = [t_[0] for t_ in run_backend_convert(ctx).trace]
+    first_conv = next((i_ for i_, k_ in enumerate(tr2) if k_.startswith("convert")), None)
+    if "resolve" not in tr2:
         r.violation("C09.R2", cv.qual, "rule_collection.resolve_rule_references()", "convert() no longer resolves (and orders) references itself: a collection built with resolve_references=False or modified after loading is converted in document order", cv.loc)
+    elif first_conv is not None and tr2.index("resolve") < first_conv and tr2.count("resolve") == 1:
+        r.ok("C09.R2", cv.qual, "resolve_rule_references() runs once, before every per-rule conversion (interpreted)", cv.loc)
     else:
-        rn = [n for c in res for n in cfg.node_of_expr(c, prog.parent)]
-        okk = all(cfg.must_pass(n, rn) for c in convs for n in cfg.node_of_expr(c, prog.parent))
-        if okk and convs:
-            r.ok("C09.R2", cv.qual, "resolve_rule_references() dominates every per-rule conversion", f"{cv.module.relpath}:{res[0].lineno}")
-        else:
-            r.violation("C09.R2", cv.qual, short(res[0]), "a conversion can run before references are resolved", f"{cv.module.relpath}:{res[0].lineno}")
+        r.violation("C09.R2", cv.qual, "rule_collection.resolve_rule_references()", f"a conversion can run before references are resolved: calls in order {tr2[:8]}", cv.loc)
     gi = prog.func(COLL + ".__getitem__")
     handlers = {}
     for t in (x for x in walk_no_nested(gi.node) if isinstance(x, ast.Try)):
@@ -474,22 +472,25 @@ def r3_load_paths(ctx) -> None:
             r.violation("C09.R3", f.qual, f"resolve_references default = {unparse(d) if d is not None else None}", "the load path no longer resolves rule references unless asked to: a dangling reference is not reported when the collection is built, the rule list is not in reference order and get_output_rules() still lists rules whose output a correlation suppresses", f.loc)
     cf = prog.dataclass_fields(COLL).get("resolve_references")
     lr = prog.func(COLL + ".load_ruleset")
-    fy = [c for c in walk_no_nested(lr.node) if isinstance(c, ast.Call) and call_name(c).endswith("from_yaml")]
-    mg = [c for c in walk_no_nested(lr.node) if isinstance(c, ast.Call) and call_name(c) == "cls.merge"]
-    def kw_false(c): return any(kw.arg == "resolve_references" and isinstance(kw.value, ast.Constant) and kw.value.value is False for kw in c.keywords)
-    if fy and all(kw_false(c) for c in fy):
-        r.ok("C09.R3", lr.qual, "per-file from_yaml(..., resolve_references=False)", lr.loc)
-    else:
-        r.violation("C09.R3", lr.qual, "SigmaCollection.from_yaml(..., resolve_references=False)", "per-file collections resolve references on their own: a rule referenced from another file is reported missing", lr.loc)
-    fin = [c for c in walk_no_nested(lr.node) if isinstance(c, ast.Call) and call_name(c).endswith(".resolve_rule_references")]
-    if mg and fin and (kw_false(mg[0]) or True):
-        gs = atomic_guards(guards_at(prog, lr, fin[0]))
-        if ("resolve_references", True) in gs and call_name(fin[0]).split(".")[0] == unparse(assignments_target(lr, mg[0], prog)):
-            r.ok("C09.R3", lr.qual, "merged collection resolved once, under the caller's flag", f"{lr.module.relpath}:{fin[0].lineno}")
+    # load_ruleset interpreted (sa.tabulate, ClassProxy) on two stand-in files: what the per-file loader, the merge and the
+    # final resolution are called with — with and without the caller's resolve_references
+    from .standins import load_ruleset_outcome
+    for flag in (True, False):
+        o3 = load_ruleset_outcome(ctx, resolve=flag)
+        if o3.raised is not None:
+            r.violation("C09.R3", lr.qual, "load_ruleset on two files", f"raises {o3.raised}", lr.loc)
+            continue
+        if len(o3.per_file) == 2 and all(d_.get("resolve_references") is False for d_ in o3.per_file):
+            r.ok("C09.R3", lr.qual, f"per-file from_yaml(..., resolve_references=False) [caller's flag {flag}]", lr.loc)
         else:
-            r.violation("C09.R3", lr.qual, short(fin[0]), "final resolution is not performed on the merged collection under the caller's flag", f"{lr.module.relpath}:{fin[0].lineno}")
-    else:
-        r.violation("C09.R3", lr.qual, "merged.resolve_rule_references()", "no resolution over the merged rule set", lr.loc)
+            r.violation("C09.R3", lr.qual, "SigmaCollection.from_yaml(..., resolve_references=False)", f"per-file collections resolve references on their own: a rule referenced from another file is reported missing (per-file calls: {[d_.get('resolve_references', '<default>') for d_ in o3.per_file]})", lr.loc)
+        okm = len(o3.merge) == 1 and o3.merge[0].get("collections") == ["collection-1", "collection-2"] and o3.merge[0].get("resolve_references") is False
+        if okm and o3.resolved[0] == (1 if flag else 0) and o3.ret is o3.merged:
+            r.ok("C09.R3", lr.qual, f"merged collection resolved {'once' if flag else 'not at all'}, under the caller's flag {flag}", lr.loc)
+        elif not o3.merge or o3.resolved[0] == 0 and flag:
+            r.violation("C09.R3", lr.qual, "merged.resolve_rule_references()", f"no resolution over the merged rule set (merge calls {o3.merge}, resolutions {o3.resolved[0]})", lr.loc)
+        else:
+            r.violation("C09.R3", lr.qual, "merged.resolve_rule_references()", f"final resolution is not performed on the merged collection under the caller's flag {flag}: merge calls {o3.merge}, resolutions {o3.resolved[0]}", lr.loc)
     r.floor("C09.R3", 10)
 
 
